@@ -54,7 +54,8 @@ DEFAULT_KNOBS: Dict[str, Any] = {
     "swarm": True,
 }
 
-EXC_NAMES = ["ValueError", "KeyError", "RuntimeError", "SimError", "ZeroDivisionError", "SimBadStr"]
+EXC_NAMES = ["ValueError", "KeyError", "RuntimeError", "SimError", "ZeroDivisionError", "SimBadStr", "TimeoutError", "SimTimeout"]
+KICK_EXC_NAMES = ["SimFault", "SimFault", "RuntimeError", "TimeoutError", "OSError", "BrokerError", "UnknownTaskError", "TaskiqError", "SendTaskError", "ResultGetError"]
 BASE_EXC_NAMES = ["KeyboardInterrupt", "SystemExit", "SimBaseError"]
 HOOKS_WORKER = ["pre_execute", "on_error", "post_execute", "post_save"]
 HOOKS_CLIENT = ["pre_send", "post_send"]
@@ -282,6 +283,7 @@ def gen_worker_script(rs: int, knobs: Optional[dict] = None) -> dict:
             net["dup_delay_us"] = duration(r, {"tiny": 2, "short": 2, "medium": 1}) + 1
         if faults and kn["p_kick_fail"] and r.random() < kn["p_kick_fail"]:
             net["fail"] = True
+            net["fail_exc"] = r.choice(KICK_EXC_NAMES)
         if net:
             m["net"] = [net, {"delay_us": net.get("delay_us", 0)}]
         if faults:
